@@ -49,12 +49,71 @@ def oracle_coords(model, klein, rep=1.0):
     return c
 
 
-def build(coords, model, via="Point"):
+class Kept:
+    """The caller's side of every construction: the arrays handed to the library are KEPT by the harness (as a
+    user keeps the coordinates he read with Point.coords to use them again), together with a byte snapshot.
+    The coordinates a point was built from are that point's coordinates for as long as the caller holds them:
+    construction and the read-only queries coords() / distance() must leave the array bitwise unchanged
+    (otherwise the model's closed-form metric on "the points' coordinates", and a second point built from the
+    same coordinates, are those of another point)."""
+
+    def __init__(self):
+        self.items = []
+
+    def array(self, coords, model, dtype=float, pack="c"):
+        base = np.array(coords, dtype=dtype)     # C-contiguous, owned by the harness
+        arr = base
+        if pack == "strided":                    # a non-contiguous view into a larger array the caller owns
+            base = np.zeros(base.shape[:-1] + (2 * base.shape[-1],), dtype=dtype)
+            base[..., ::2] = coords
+            base[..., 1::2] = 7
+            arr = base[..., ::2]
+        elif pack == "fortran" and base.ndim >= 2:
+            base = np.asfortranarray(base)
+            arr = base
+        elif pack == "readonly":
+            base.flags.writeable = False
+        self.items.append((arr, base, base.tobytes(), base.dtype, base.shape, model, pack))
+        return arr
+
+    def check(self, v, where, seen=None):
+        """Append a violation for every kept array that no longer holds what the harness put into it."""
+        for arr, base, snap, dt, shp, model, pack in self.items:
+            if base.dtype != dt or base.shape != shp or base.tobytes() != snap:
+                key = "caller-array/modified/%s/%s" % (model, str(dt))
+                if seen is not None:
+                    if key in seen:
+                        continue
+                    seen.add(key)
+                was = np.frombuffer(snap, dtype=dt).reshape(shp)
+                v.append({"key": key,
+                          "msg": "%s: the %s coordinate array (%s, %s) handed to the library was modified: it held %r, now holds %r" % (
+                              where, model, dt, pack, was.ravel()[:6].tolist(), np.asarray(base).ravel()[:6].tolist())})
+        return len(self.items)
+
+
+def construct(arr, model, via="Point"):
     from geometry_tools import hyperbolic
-    arr = np.array(coords, dtype=float)          # fresh float array: the library may normalise in place
     if via == "get_point":
         return hyperbolic.get_point(arr, model=model)
+    if via == "coords-set":                      # the setter form of Point.coords on an existing point of the same dimension
+        n = arr.shape[-1] - (1 if model in ("projective", "hyperboloid") else 0)
+        start = np.zeros(arr.shape[:-1] + (n + 1,))
+        start[..., 0] = 1.0
+        start[..., 1] = 0.25
+        pt = hyperbolic.Point(start)
+        pt.coords(model, arr)
+        return pt
     return hyperbolic.Point(arr, model=model)
+
+
+def build(coords, model, via="Point", kept=None):
+    """Build a point from a fresh float64 array; with `kept`, the harness keeps that array (and checks it later)."""
+    if kept is not None:
+        arr = kept.array(coords, model)
+    else:
+        arr = np.array(coords, dtype=float)      # fresh float array: the library may normalise in place
+    return construct(arr, model, via)
 
 
 def chart_error(model, got, klein, ideal):
@@ -118,7 +177,8 @@ def case_models(hist):
     _, n, kind, klein, model, rep, both = root
     ideal = kind == "ideal"
     klein = np.asarray(klein, dtype=float)
-    pt = build(oracle_coords(model, klein, rep), model)
+    kept = Kept()
+    pt = build(oracle_coords(model, klein, rep), model, kept=kept)
     t = 1
     path = ["%s*%g" % (model, rep)]
     cur = [model, rep, "Point"]
@@ -128,7 +188,7 @@ def case_models(hist):
         c = np.array(pt.coords(m2), dtype=float)
         if m2 in ("projective", "hyperboloid"):
             c = rep2 * c
-        pt = build(c, m2, via)
+        pt = build(c, m2, via, kept=kept)
         t += 2
         path.append("%s*%g/%s" % (m2, rep2, via))
         prev, cur = cur, [m2, rep2, via]
@@ -138,6 +198,17 @@ def case_models(hist):
         v.append({"key": "coords-type/dimension", "msg": "%s: dimension %r" % (where, pt.dimension)})
     tt, worst = check_all_charts(pt, klein, ideal, where, v)
     t += tt
+    # caller-array discipline: every array a point of this history was built from still holds what the harness
+    # put there (after construction and after every coords() read), and a SECOND point built from the array
+    # the current point was built from is the same point
+    kept.check(v, where)
+    if not v:
+        last, _, _, _, _, lm, _ = kept.items[-1]
+        pt2 = construct(last, lm, cur[2])
+        tt, w2 = check_all_charts(pt2, klein, ideal, where + " [second point built from the same kept %s array]" % lm, v)
+        t += tt + 1
+        worst = max(worst, w2)
+        kept.check(v, where)
     variants = IDEAL_VARIANTS if ideal else VARIANTS
     if v:
         ops = []
@@ -180,11 +251,13 @@ def case_pair(case):
             raise AssertionError("oracle metrics disagree: %r" % (orac,))   # harness problem, not a defect
     nan_self = 0
     for (i, (mp, rp)), (j, (mq, rq)) in itertools.product(enumerate(VARIANTS), repeat=2):
-        P = build(oracle_coords(mp, kp, rp), mp)
-        Q = build(oracle_coords(mq, kq, rq), mq)
+        kept = Kept()
+        P = build(oracle_coords(mp, kp, rp), mp, kept=kept)
+        Q = build(oracle_coords(mq, kq, rq), mq, kept=kept)
         d = _dist(P, Q)
         t += 1
         who = "H^%d d(%s*%g %r, %s*%g %r)" % (n, mp, rp, kp.tolist(), mq, rq, kq.tolist())
+        kept.check(v, who, seen)
         arr = np.asarray(d)
         if arr.shape != () or arr.dtype.kind != "f":
             add("metric/distance-type", "%s has shape %r dtype %s" % (who, arr.shape, arr.dtype))
@@ -217,6 +290,21 @@ def case_pair(case):
                 if not abs(d - dm) <= tol:
                     add("metric/own-coordinates/%s" % m,
                         "%s = %.12g, closed-form %s metric on the library's own coordinates gives %.12g" % (who, d, m, dm))
+            # the coordinate arrays the caller kept: still the points' coordinates after the queries above, so the
+            # model's closed-form metric on them, and second points built from them, give the same distance
+            kept.check(v, who + " after distance() and coords()", seen)
+            ap, aq = kept.items[0][0], kept.items[1][0]
+            if mp == mq:
+                dm = float(hyp.dist_in_model(mp, ap, aq))
+                if not abs(d - dm) <= tol:
+                    add("caller-array/closed-form-metric/%s" % mp,
+                        "%s = %.12g, closed-form %s metric on the arrays the points were built from gives %.12g" % (who, d, mp, dm))
+            d3 = float(_dist(construct(ap, mp, "get_point"), construct(aq, mq, "Point")))
+            t += 3
+            if d3 == d3 and not abs(d - d3) <= (2 * TOL_SQRT if same else TOL):
+                add("caller-array/second-point/%s" % mp,
+                    "%s = %.12g, but second points built from the same two kept arrays are at distance %.12g" % (who, d, d3))
+            kept.check(v, who + " after building second points", seen)
     return {"v": v, "t": t, "o": "%d/%.3f/%d" % (n, d0, nan_self), "nt": True}
 
 
@@ -224,15 +312,17 @@ def case_triangle(case):
     n, shift, pts = case["n"], case["shift"], [np.asarray(p, dtype=float) for p in case["pts"]]
     N = len(pts)
     objs = []
+    kept = Kept()
     for i, k in enumerate(pts):
         m, r = VARIANTS[(i + shift) % len(VARIANTS)]
-        objs.append(build(oracle_coords(m, k, r), m))
+        objs.append(build(oracle_coords(m, k, r), m, kept=kept))
     D = np.zeros((N, N))
     v = []
     nan = 0
     for i in range(N):
         for j in range(N):
             D[i, j] = float(_dist(objs[i], objs[j]))
+    kept.check(v, "H^%d: all pairwise distances of %d lattice points (variant shift %d)" % (n, N, shift), set())
     for i in range(N):
         if D[i, i] != D[i, i]:
             nan += 1
@@ -268,7 +358,8 @@ def case_shape(case):
     reps = [rep * lattice.LAMBDAS[i % 4] if model == "projective" else rep for i in range(len(pts))]
     units = [oracle_coords(model, k, r) for k, r in zip(pts, reps)]
     arr = lattice.tile(units, shape)
-    P = build(arr, model, via)
+    kept = Kept()
+    P = build(arr, model, via, kept=kept)
     v = []
     t = 1
     cls = "ideal" if ideal else "interior"
@@ -294,7 +385,7 @@ def case_shape(case):
         # distance to the same lattice shifted by one place, built from another model
         m2, r2 = VARIANTS[(vi + 3) % len(VARIANTS)]
         pts2 = pts[1:] + pts[:1]
-        Q = build(lattice.tile([oracle_coords(m2, k, r2) for k in pts2], shape), m2, via)
+        Q = build(lattice.tile([oracle_coords(m2, k, r2) for k in pts2], shape), m2, via, kept=kept)
         d = np.asarray(_dist(P, Q))
         t += 1
         want = hyp.dist_klein(kl, lattice.tile(pts2, shape))
@@ -309,7 +400,7 @@ def case_shape(case):
                           "msg": "%s: distance to the shifted composite (%s) differs from the per-pair oracle by %r" % (
                               who, m2, float(np.nanmax(np.abs(d - want))) if np.any(np.isfinite(d)) else "NaN")})
         # distance of the composite to itself / to a copy from another model: zeros, never NaN
-        Q0 = build(lattice.tile([oracle_coords(m2, k, r2) for k in pts], shape), m2, via)
+        Q0 = build(lattice.tile([oracle_coords(m2, k, r2) for k in pts], shape), m2, via, kept=kept)
         for other, label in ((P, "itself"), (Q0, "a copy built from %s" % m2)):
             d = np.asarray(_dist(P, other))
             t += 1
@@ -321,7 +412,208 @@ def case_shape(case):
                           "msg": "%s: distance to %s has %d NaN entries of %d" % (who, label, int(np.sum(np.isnan(d))), count)})
             elif not np.all(np.abs(d) <= TOL_SQRT):
                 v.append({"key": "metric/distance-self/value", "msg": "%s: distance to %s is %r" % (who, label, float(np.max(np.abs(d))))})
+    # the composite arrays the caller kept are unchanged, and a second composite built from the first kept array
+    # (through the other constructor) is the same composite
+    kept.check(v, who, set())
+    if not v:
+        P2 = construct(kept.items[0][0], model, VIAS[1 - VIAS.index(via)])
+        t += 1
+        for m in (IDEAL_MODELS if ideal else hyp.MODELS):
+            err, tol, bad = chart_error(m, P2.coords(m), kl, ideal)
+            t += 1
+            if bad is not None or not err <= tol:
+                v.append({"key": "caller-array/second-point/%s" % model,
+                          "msg": "%s: a second composite built from the same kept array has coords(%s) %s" % (
+                              who, m, bad or "off the per-point oracle values by %.3g" % err)})
+        kept.check(v, who + " after building a second composite", set())
     return {"v": v, "t": t, "o": "%d/%r/%s/%s/%d" % (n, shape, model, cls, min(nan, 1)), "nt": count > 1}
+
+
+# ------------------------------------------------------------------------------------------
+# engine P: caller arrays.  The coordinates are the CALLER's: he keeps the ndarray he built a point from (for
+# instance one returned by coords()) and uses it again -- to build the point again, to build it through another
+# constructor, in the model's closed-form metric.  Every packaging of the same numbers gives the same point, and
+# none of construction / coords() / distance() writes into the array.
+# ------------------------------------------------------------------------------------------
+CALLER_PACKS = [["float64", "c"], ["float64", "strided"], ["float64", "fortran"], ["float64", "readonly"],
+                ["float32", "c"], ["float32", "readonly"]]
+CALLER_INT_PACKS = [["int64", "c"], ["int32", "c"], ["int64", "strided"], ["int64", "readonly"]]
+CALLER_VIAS = ["Point", "get_point", "coords-set"]
+CALLER_SHAPES = [[], [3], [2, 2]]
+INT_MODELS = ["poincare", "halfspace"]           # models whose setter converts the coordinates (the others keep the dtype given)
+EPS32 = 6e-8
+TOL32 = 1e-4     # float32 input: coordinates are known to 6e-8 relative; charts for |k| <= 0.9 amplify by <= ~30
+
+
+def int_points(model, n, ideal):
+    """Integer-valued coordinates of points of the closed ball, per model (the open ball has few integer points)."""
+    if model == "poincare":
+        if not ideal:
+            return [[0] * n]
+        return [[s if i == j else 0 for i in range(n)] for j in range(n) for s in (1, -1)][1: 5]   # +e1 is the half-space point at infinity
+    # half-space: (x_1 .. x_(n-1), y), y > 0 interior, y = 0 ideal
+    out = []
+    for y in ((1, 2, 3) if not ideal else (0,)):
+        for x in ((0,), (1,), (-2,)) if n >= 2 else ((),):
+            out.append(list(x) + [1 if (i % 2) else -1 for i in range(n - 1 - len(x))] + [y])
+    return out
+
+
+def case_caller(case):
+    n, model, rep, ideal = case["n"], case["model"], case["rep"], case["ideal"]
+    dtype, pack, via, shape = case["dtype"], case["pack"], case["via"], tuple(case["shape"])
+    m2, rep2 = case["other"]
+    cls = "ideal" if ideal else "interior"
+    if "coords" in case:                         # integer-valued coordinates given directly
+        units = [np.asarray(c, dtype=float) for c in case["coords"]]
+    else:
+        units = [oracle_coords(model, np.asarray(k, dtype=float), rep) for k in case["pts"]]
+    count = int(np.prod(shape)) if len(shape) else 1
+    kept = Kept()
+    arr = kept.array(lattice.tile(units, shape), model, dtype=np.dtype(dtype), pack=pack)
+    # the points the array describes: the charts of the numbers as stored (float32 rounds the coordinates)
+    kl = hyp.to_klein(model, np.asarray(arr, dtype=float))
+    low = dtype == "float32"
+    who = "H^%d %s point(s) of shape %r from a kept %s %s array (%s) via %s" % (n, cls, shape, model, dtype, pack, via)
+    v, t, seen = [], 0, set()
+
+    def add(key, msg):
+        if key not in seen:
+            seen.add(key)
+            v.append({"key": key, "msg": msg})
+
+    def charts(P, label):
+        tt = 0
+        for m in (IDEAL_MODELS if ideal else hyp.MODELS):
+            c = np.asarray(P.coords(m))
+            tt += 1
+            kept.check(v, "%s: after %s.coords(%s)" % (who, label, m), seen)
+            dim = n + 1 if m in ("projective", "hyperboloid") else n
+            if c.shape != shape + (dim,):
+                add("caller-array/coords-shape/%s" % m, "%s: %s.coords(%s).shape = %r" % (who, label, m, c.shape))
+                continue
+            err, tol, bad = chart_error(m, c, kl, ideal)
+            if bad is None and low:
+                tol = max(tol, TOL32 * (1.0 + float(np.max(np.abs(c)))) ** 2)
+            if bad is not None or not err <= tol:
+                add("caller-array/coords/%s/%s" % (m, cls), "%s: %s.coords(%s) %s" % (
+                    who, label, m, bad or "differs from the charts of the array's numbers by %.3g (tol %.1g)" % (err, tol)))
+        return tt
+
+    P1 = construct(arr, model, via)
+    t += 1
+    kept.check(v, who + ": after construction", seen)
+    if tuple(P1.shape) != shape:
+        add("caller-array/object-shape", "%s: .shape = %r" % (who, P1.shape))
+    t += charts(P1, "first point")
+    # the coordinates read back in the point's own model are the numbers of the kept array
+    if model not in ("projective", "hyperboloid") and not (ideal and model in ("poincare", "halfspace")):
+        back = np.asarray(P1.coords(model), dtype=float)
+        t += 1
+        if back.shape != arr.shape or not np.all(np.abs(back - arr) <= (TOL32 if low else TOL) * (1.0 + np.abs(arr)) ** 2):
+            add("caller-array/read-back/%s" % model, "%s: coords(%s) = %r, the kept array holds %r" % (
+                who, model, back.ravel()[:6].tolist(), np.asarray(arr).ravel()[:6].tolist()))
+    # a second point from the same kept array, through every constructor
+    seconds = []
+    for via2 in CALLER_VIAS:
+        P2 = construct(arr, model, via2)
+        t += 1
+        kept.check(v, "%s: after building a second point via %s" % (who, via2), seen)
+        t += charts(P2, "second point (via %s)" % via2)
+        seconds.append((via2, P2))
+    if not ideal:
+        # float32 arrays stay float32 inside the library: the Minkowski product of the two unit vectors is cosh d + e with
+        # |e| <= ~64 eps32 cosh R_x cosh R_y (eps32 = 6e-8), hence the arccosh conditioning of `acosh_tol`
+        with np.errstate(all="ignore"):
+            ch = 1.0 / np.sqrt(np.maximum(1.0 - np.sum(kl * kl, axis=-1), 1e-12))
+
+        def tol_for(want, ch2):
+            want, ch2 = np.broadcast_arrays(np.asarray(want, dtype=float), np.asarray(ch2, dtype=float))
+            if not low:
+                return np.where(want < 1e-3, TOL_SQRT, TOL * (1.0 + want))
+            return np.array([acosh_tol(float(w), 64.0 * EPS32 * float(c)) + TOL32 * (1.0 + float(w))
+                             for w, c in zip(want.ravel(), ch2.ravel())]).reshape(want.shape)
+        dtol = tol_for(np.zeros(shape), ch * ch)
+        for via2, P2 in seconds:
+            for a, b in ((P1, P2), (P2, P1), (P1, P1)):
+                d = np.asarray(_dist(a, b))
+                t += 1
+                kept.check(v, who + ": after distance()", seen)
+                if d.shape != shape or d.dtype.kind != "f":
+                    add("caller-array/distance-type", "%s: distance has shape %r dtype %s" % (who, d.shape, d.dtype))
+                elif not np.all(np.abs(d) <= dtol):      # NaN fails too
+                    add("caller-array/second-point/%s" % model,
+                        "%s: distance between the point and a second point built from the same array via %s: %r" % (
+                            who, via2, d.ravel()[:6].tolist()))
+        # another point: the same lattice shifted by one place (integer case: reversed order and sign-flipped first
+        # coordinate stay integer-valued), kept as well; reported distance = the model's closed-form metric on the
+        # two kept arrays = the Klein metric of the described points
+        if "coords" in case:
+            units2 = units[1:] + units[:1]
+            arr2 = kept.array(lattice.tile(units2, shape), model, dtype=np.dtype(dtype), pack=pack)
+            mq = model
+        else:
+            pts2 = case["pts"][1:] + case["pts"][:1]
+            arr2 = kept.array(lattice.tile([oracle_coords(m2, np.asarray(k, dtype=float), rep2) for k in pts2], shape), m2,
+                              dtype=np.dtype(dtype), pack=pack)
+            mq = m2
+        kl2 = hyp.to_klein(mq, np.asarray(arr2, dtype=float))
+        Q = construct(arr2, mq, CALLER_VIAS[(CALLER_VIAS.index(via) + 1) % 3])
+        want = hyp.dist_klein(kl, kl2)
+        with np.errstate(all="ignore"):
+            ch2 = 1.0 / np.sqrt(np.maximum(1.0 - np.sum(kl2 * kl2, axis=-1), 1e-12))
+        tol2 = tol_for(want, ch * ch2)
+        t += 1
+        for a, b in ((P1, Q), (Q, P1), (seconds[0][1], Q)):
+            d = np.asarray(_dist(a, b))
+            t += 1
+            kept.check(v, who + ": after distance() to another point", seen)
+            if d.shape != shape or d.dtype.kind != "f":
+                add("caller-array/distance-type", "%s: distance has shape %r dtype %s" % (who, d.shape, d.dtype))
+            elif not np.all(np.abs(d - want) <= tol2):
+                add("caller-array/distance/value", "%s: distance to the shifted point(s) built from a kept %s array: %r, metric of the described points %r" % (
+                    who, mq, d.ravel()[:6].tolist(), np.asarray(want).ravel()[:6].tolist()))
+        if mq == model:
+            dm = np.asarray(hyp.dist_in_model(model, np.asarray(arr, dtype=float), np.asarray(arr2, dtype=float)))
+            d = np.asarray(_dist(P1, Q))
+            t += 1
+            if d.shape == shape and not np.all(np.abs(d - dm) <= 2.0 * tol2):
+                add("caller-array/closed-form-metric/%s" % model,
+                    "%s: reported distance %r, closed-form %s metric on the two kept arrays %r" % (
+                        who, d.ravel()[:6].tolist(), model, dm.ravel()[:6].tolist()))
+    kept.check(v, who + ": at the end", seen)
+    return {"v": v, "t": t, "o": "%d|%s|%s|%s|%s|%s|%r|%d" % (n, cls, model, dtype, pack, via, shape, len(v)), "nt": True}
+
+
+def caller_cases(dims, lat, q):
+    for n in dims:
+        P, I = lat[n]
+        for ideal in (False, True):
+            pts = (I if ideal else P)
+            pts = pts[: 6] if q else pts
+            pts32 = [k for k in pts if float(np.dot(k, k)) <= 0.81]      # float32 arrays: Klein radius <= 0.9
+            for vi, (model, rep) in enumerate(IDEAL_VARIANTS if ideal else VARIANTS):
+                if model == "projective" and rep == 2.5 and q:
+                    continue
+                other = VARIANTS[(vi + 3) % len(VARIANTS)]
+                for (dtype, pack) in CALLER_PACKS:
+                    if dtype == "float32" and ideal:
+                        continue                 # a float32 "unit" vector is 1e-8 off the sphere: ideal/interior is undecided
+                    for via in CALLER_VIAS:
+                        for shape in CALLER_SHAPES:
+                            if pack == "fortran" and len(shape) < 1:
+                                continue
+                            yield {"n": n, "model": model, "rep": rep, "ideal": ideal, "dtype": dtype, "pack": pack, "via": via,
+                                   "shape": shape, "pts": pts32 if dtype == "float32" else pts, "other": other}
+            for model in INT_MODELS:
+                coords = int_points(model, n, ideal)
+                if model == "halfspace" and n == 1 and ideal:
+                    continue
+                for (dtype, pack) in CALLER_INT_PACKS:
+                    for via in CALLER_VIAS:
+                        for shape in CALLER_SHAPES:
+                            yield {"n": n, "model": model, "rep": 1.0, "ideal": ideal, "dtype": dtype, "pack": pack, "via": via,
+                                   "shape": shape, "coords": coords, "other": [model, 1.0]}
 
 
 # ------------------------------------------------------------------------------------------
@@ -740,7 +1032,8 @@ def run(ctx):
     ctx.assume("hyperboloid coordinates are compared up to the sheet (+-x): the library keeps the sign of the given representative")
     ctx.assume("projective coordinates are compared up to a non-zero scalar")
     ctx.assume("hyperboloid coordinates of ideal points are not read (undefined)")
-    ctx.assume("all input coordinates are floats")
+    ctx.assume("all input coordinates are floats (float64 everywhere; the caller-arrays section adds float32 arrays and integer-valued "
+               "Poincare / half-space arrays)")
     ctx.tolerances["coords"] = "1e-9*(1+|value|): chart maps are well conditioned for |k| <= %.2f (measured error <= 1e-13)" % rmax
     ctx.tolerances["ideal coords"] = ("1e-6*(1+|value|)^2 for Poincare/half-space coordinates of ideal points: sqrt|1-|k|^2| of a "
                                       "rounded unit vector is ~1e-8 (measured 5e-8)")
@@ -818,3 +1111,16 @@ def run(ctx):
                               "ideal": True, "pts": lat[n][1]})
     ctx.product("composite-shapes", "checks.c01:case_shape", cases, chunk=16,
                 domains={"dimensions": dims, "shapes": [list(s) for s in shapes], "variants": len(VARIANTS) + len(IDEAL_VARIANTS)})
+
+    cases = list(caller_cases(dims, lat, q))
+    ctx.product("caller-arrays", "checks.c01:case_caller", cases, chunk=32,
+                domains={"dimensions": dims, "(model, representative)": VARIANTS, "float packagings (dtype, layout)": CALLER_PACKS,
+                         "integer packagings (Poincare / half-space coordinates only)": CALLER_INT_PACKS,
+                         "constructors": CALLER_VIAS, "shapes": CALLER_SHAPES,
+                         "demands": "kept array bitwise unchanged after construction and after every coords()/distance(); coords of the "
+                                    "first and of second points (every constructor) built from the same kept array = charts of the array's "
+                                    "numbers; distance between them 0; distance to a point from another kept array = Klein metric = the "
+                                    "model's closed-form metric on the two kept arrays"})
+    ctx.assume("caller arrays: float64 (C-contiguous, strided view, Fortran order, read-only), float32 (interior points of Klein radius <= 0.9 only; coordinates to "
+               "1e-4 (1+|c|)^2, distances to the arccosh conditioning of a float32 Minkowski product + 1e-4 (1+d)), and integer-valued int64/int32 arrays in the Poincare and half-space models only (the "
+               "projective/hyperboloid/Klein setters keep the dtype they are given; integer arrays there are out of domain)")
